@@ -11,7 +11,7 @@ META = {
     "level": "exploration",
     "rule": ("generated non-negative 2D densities on direction grids covering the circle (uniform with any "
              "start angle, or non-uniform with gaps in (0.5,170) degrees, optionally rolled so the array does "
-             "not start at its minimum; 8..144 bins), any frequency grid and leading dims, zero/NaN bins and "
+             "not start at its minimum; labelled in [0,360), in [-180,180) or unwrapped past 360; 8..144 bins), any frequency grid and leading dims, zero/NaN bins and "
              "all-zero frequency rows. Non-trivial = grid non-uniform or not starting at 0, and >= 2 non-zero "
              "directions; distinct = sha1 of the case."),
     "assumptions": [
@@ -25,7 +25,7 @@ META = {
 
 @st.composite
 def case(draw):
-    s = draw(GS.spec2d_case(max_nf=16, max_nd=144, max_cells=12000))
+    s = draw(GS.spec2d_case(max_nf=16, max_nd=144, max_cells=12000, relabel=True))
     b = draw(GS.band(s["f"]))
     return {"spec": s, **b}
 
@@ -148,6 +148,7 @@ def run(c):
         classes.append("rolled")
     if d[0] != 0:
         classes.append("start_not_zero")
+    classes.append("labels_" + sc.get("dir_labels", "0_360"))
     if (~pos).any():
         classes.append("has_empty_frequency_row")
     if np.isnan(E).any():
